@@ -59,7 +59,7 @@ def do_eval(ids, checks=None, stage="detection"):
     for sid in ids:
         d = os.path.join(SEEDED, sid)
         meta = json.load(open(f"{d}/meta.json"))
-        if not meta.get("kept"):
+        if not meta.get("kept") or (stage == "detection_final" and meta.get("neutralised_by_later_fix")):
             continue
         wt = f"{WT_BASE}/{meta['property']}"
         if not os.path.isdir(wt):
@@ -116,7 +116,9 @@ def table():
                                                               else ("inconclusive (exit 2)" if meta.get("detection_final") else "-"))
         n += 1
         first += bool(meta.get("caught_by"))
-        final += bool(meta.get("caught_by_final"))
+        if meta.get("neutralised_by_later_fix"):
+            fin = "n/a - neutralised by a later fix: " + meta["neutralised_by_later_fix"][:60]
+        final += bool(meta.get("caught_by_final")) and not meta.get("neutralised_by_later_fix")
         rows.append(f"| {meta['id']} | {meta['property']} | {ini} | {fin} | {note} |")
     print(f"{n} kept changes; caught when first evaluated: {first}; caught by the checks as committed: {final}\n")
     print("| seeded change | property | first evaluation | final checks | what it is / needs |\n|---|---|---|---|---|")
